@@ -113,6 +113,18 @@ def proof_gate(prop, pins_file=None):
     res = {"ok": False, "obligations": 0, "discharged": 0, "failures": [], "axioms": {}, "log": ""}
     t0 = time.time()
     rc, out = coq_build()
+    if rc != 0:
+        # A file that belongs to ANOTHER property may be broken (e.g. a theorem re-proved on data
+        # regenerated from the source, theories/Gen/*.v): that must fail that property's gate, not
+        # this one.  Retry with just what this property needs: its pinned statements and the Run
+        # modules (make -k: independent targets are still built).
+        import glob as _glob
+        runs = [os.path.relpath(p[:-2] + ".vo", COQ)
+                for p in sorted(_glob.glob(os.path.join(COQ, "theories", "Run", "*.v")))]
+        rc2, out2 = coq_build(targets=["-k", "theories/Properties/%s.vo" % prop] + runs)
+        rc3, _ = sh("make -q theories/Properties/%s.vo" % prop, cwd=COQ, timeout=600)
+        if rc3 == 0:
+            rc, out = 0, out2
     res["log"] = out[-6000:]
     if rc != 0:
         # find the failing file
